@@ -149,10 +149,12 @@ func ParseExpandedNodeID(s string, ns []string) (*ExpandedNodeID, error) {
 	var nsval, idval string
 
 	p := strings.SplitN(s, ";", 2)
-	switch len(p) {
-	case 1:
-		nsval, idval = "ns=0", p[0]
-	case 2:
+	switch {
+	case len(p) == 1, strings.HasPrefix(s, "s="):
+		// No namespace part. NodeID.String omits 'ns=0;' and a string
+		// identifier may itself contain ';' (e.g. 's=a;b').
+		nsval, idval = "ns=0", s
+	default:
 		nsval, idval = p[0], p[1]
 	}
 
